@@ -52,12 +52,12 @@ PROPERTIES = {
         units=['wire'],
         canaries=['wire', 'streams'],
         counterexample=cex.cex_c15,
-        extra=[validate.frame_boundary],
+        extra=[validate.frame_boundary, validate.oversize_confined],
         scope='the codec is built from the configuration exactly (4-byte big-endian length, configured maximum = codec limit), the same '
               'function with the same configuration builds reader and writer on both ends of every stream (BiStreamRequestHandler::new, do_rpc), '
               'writers refuse and readers reject frames above the local maximum and deliver frames up to and including it (contracts + lemma). '
               'The clause "with no maximum configured, no size limit is imposed" FAILS on the pinned tree and is recorded as a known finding.',
-        unverified=['"error for that RPC only, never a torn-down connection": task / stream isolation is quinn + tokio',
+        unverified=['"error for that RPC only, never a torn-down connection": task / stream isolation is quinn + tokio: NOT under contract; exercised on real networks by the execution check oversize_confined',
                     'strict > comparison inside tokio-util (assumed contract, checked by execution at max and max+1)'],
         assumptions=[],
     ),
